@@ -6,7 +6,7 @@ use tensor_store::{ScalarValue, TensorData, TensorStore, TensorValue};
 use crate::{
     chunker::StreamingHasher,
     error::{BlobError, Result},
-    gc::decrement_chunk_refs,
+    gc::{decrement_chunk_refs, lock_refs},
     metadata::RepairStats,
     streaming::{get_bytes, get_int, get_pointers, get_string},
 };
@@ -73,6 +73,7 @@ pub fn verify_chunk(store: &TensorStore, chunk_key: &str) -> Result<bool> {
 ///
 /// Returns an error if store operations fail.
 pub fn repair(store: &TensorStore) -> Result<RepairStats> {
+    let _refs = lock_refs();
     let mut stats = RepairStats::default();
 
     // 1. Build true reference counts from all artifacts
@@ -177,6 +178,9 @@ pub fn find_orphaned_chunks(store: &TensorStore) -> Vec<String> {
 ///
 /// Returns an error if the artifact is not found or deletion fails.
 pub fn delete_artifact(store: &TensorStore, artifact_id: &str) -> Result<()> {
+    // Held from reading the metadata to removing it: a second delete of the same
+    // artifact finds it gone instead of decrementing the shared chunks again.
+    let _refs = lock_refs();
     let meta_key = format!("_blob:meta:{artifact_id}");
     let tensor = store
         .get(&meta_key)
